@@ -120,10 +120,13 @@ def run_once(mod: Any, seed: int | None = None, tape: list[int] | None = None,
 
 
 def _worker(args: tuple[str, list[int], dict[str, Any]]) -> list[dict[str, Any]]:
-    modname, seeds, params = args
+    modname, seeds, params = args[:3]
+    deadline = args[3] if len(args) > 3 else None  # time.monotonic() value after which no further seed is started
     mod = importlib.import_module(modname)
     out = []
     for s in seeds:
+        if deadline is not None and time.monotonic() > deadline and out:
+            break  # the batch's wall budget is used up: hand back what is done instead of being cut off with nothing
         faulthandler.dump_traceback_later(300, exit=True)
         r = run_once(mod, seed=s, params=params)
         # keep results small
@@ -265,7 +268,7 @@ def _crash_signature(prop: str, rc: int, stderr: str) -> tuple[str, str]:
     return f"{prop}/interpreter-crash/{signame}@{frame}", f"the process running the simulation died with {signame} (exit {rc}):\n{tail}"
 
 
-def _crash_scan(modname: str, tasks: list[tuple[str, list[int], dict[str, Any]]], params: dict[str, Any], procs: int,
+def _crash_scan(modname: str, tasks: list[tuple[Any, ...]], params: dict[str, Any], procs: int,
                 budget_s: float) -> tuple[list[dict[str, Any]], list[dict[str, Any]], bool]:
     """Tasks whose worker process died are re-run seed by seed in child interpreters (parallel); returns
     (ordinary results, crash records, budget exhausted)."""
@@ -273,7 +276,7 @@ def _crash_scan(modname: str, tasks: list[tuple[str, list[int], dict[str, Any]]]
 
     mod = importlib.import_module(modname)
     t0 = time.monotonic()
-    seeds = [s for _, ss, _ in tasks for s in ss]
+    seeds = [s for t_ in tasks for s in t_[1]]
     crashes: list[dict[str, Any]] = []
     survivors: list[int] = []
     exhausted = False
@@ -368,11 +371,12 @@ def run_check(mod: Any, tier: str, base_seed: int, runs: int | None = None, proc
     params.setdefault("tier", tier)
     seeds = [base_seed * 1_000_003 + i for i in range(runs)]
     chunk = max(1, min(200, runs // (procs * 4) or 1))
-    tasks = [(mod.__name__, seeds[i:i + chunk], params) for i in range(0, len(seeds), chunk)]
+    deadline = t0 + budget_s - 1.0
+    tasks = [(mod.__name__, seeds[i:i + chunk], params, deadline) for i in range(0, len(seeds), chunk)]
     results: list[dict[str, Any]] = []
     harness_errors: list[str] = []
     timed_out = False
-    crashed_tasks: list[tuple[str, list[int], dict[str, Any]]] = []
+    crashed_tasks: list[tuple[Any, ...]] = []
     try:
         import multiprocessing as mp
         from concurrent.futures.process import BrokenProcessPool
@@ -387,10 +391,11 @@ def run_check(mod: Any, tier: str, base_seed: int, runs: int | None = None, proc
                 left = budget_s - (time.monotonic() - t0)
                 if left <= 0:
                     timed_out = True
-                    f.cancel()
-                    continue
+                    if f.cancel():
+                        continue  # never started
+                    left = 0.0  # running or done: it stops at its next seed boundary and hands back what it has
                 try:
-                    results.extend(f.result(timeout=max(1.0, left)))
+                    results.extend(f.result(timeout=max(20.0, left)))
                 except TimeoutError:
                     timed_out = True
                     f.cancel()
